@@ -1542,6 +1542,10 @@ Hendaccess(int32 access_id)
     /* if special elt, call special function */
     if (access_rec->special) {
         ret_value = (*access_rec->special_func->endaccess)(access_rec);
+        /* the special function has released the access record, also when
+           it failed: releasing it again here would put it on the free list
+           twice */
+        access_rec = NULL;
         goto done;
     } /* end if */
 
